@@ -203,13 +203,13 @@ func init() {
 
 	register(&Rule{
 		Name:  "TAB-ascii",
-		Doc:   "the ASCII class tables (alpha, digit, octal digit, hex digit, alphanumeric; initialiser + init() loops) equal their definitions",
+		Doc:   "the ASCII class tables (alpha, digit, octal digit, hex digit, alphanumeric, and the exported C0 control / C0 control or space tables; initialiser + init() loops) equal their definitions",
 		Props: []string{"C01", "C07"},
 		Floor: 4,
 		Run: func(c *Ctx, s *core.Sink) {
 			spec := loadSetsSpec(c)
 			env := BuildTables(c)
-			for _, n := range []string{"ASCIIAlpha", "ASCIIAlphanumeric", "ASCIIDigit", "ASCIIHexDigit", "asciiOctalDigit"} {
+			for _, n := range []string{"ASCIIAlpha", "ASCIIAlphanumeric", "ASCIIDigit", "ASCIIHexDigit", "asciiOctalDigit", "C0control", "C0controlOrSpace"} {
 				v, o := env.Global("url", n)
 				key := "bitset/" + n
 				props := []string{"C01"}
@@ -217,8 +217,8 @@ func init() {
 					props = []string{"C01", "C07"}
 				}
 				if o == nil {
-					if n == "asciiOctalDigit" {
-						continue // optional table: only needed if the radix-8 validation uses it (FLOW-strconv)
+					if n == "asciiOctalDigit" || n == "C0control" || n == "C0controlOrSpace" {
+						continue // optional tables: the octal digits are only needed if the radix-8 validation uses them (FLOW-strconv); the two C0 tables are exported for users, the parser does not read them
 					}
 					s.Unknown(key, "-", "anchor variable url."+n+" not found", props...)
 					continue
